@@ -312,4 +312,17 @@ fn run(e: &Engine) {
         },
         execdiff::check,
     );
+    // a tree written with the crate's Root! / Branch! / Leaf! macros (every form) and Node::* constructors:
+    // ALL strings of up to 5 (6) tokens over its mnemonics
+    if !e.replay_only {
+        if let Err(m) = execdiff::models_agree() {
+            e.harness_error(format!("tree model self-test: {m}"));
+            return;
+        }
+    }
+    let toks: Vec<Vec<u8>> = execdiff::MACRO_TOKENS.iter().map(|t| t.to_vec()).collect();
+    let idx: Vec<u8> = (0..toks.len() as u8).collect();
+    let tp = crate::gen::enumstr::Partitioned { alpha: &idx, max_len: if cfg!(debug_assertions) { 4 } else { e.tier.pick(5usize, 6) }, prefix_len: 2 };
+    let (tpr, toksr) = (&tp, &toks);
+    e.enumerate::<D, _, _>("bytes-differential-macro-built-tree", tp.parts(), move |part, f| tpr.run(part, &mut |s| f(D::Macro { bytes: crate::bytes::B(execdiff::concat(toksr, s)) })), execdiff::check);
 }
